@@ -16,15 +16,25 @@ flt = sys.argv[2] if len(sys.argv) > 2 and not sys.argv[2].startswith("-") else 
 verbose = "-v" in sys.argv
 mod = importlib.import_module(modname)
 tmo = int(os.environ.get("VERIF_TIMEOUT_MS", "20000"))
-for i, s in enumerate(mod.SPECS):
-    if s.trusted or flt not in s.short:
-        continue
-    for inst in s.instances:
-        t0 = time.time()
-        r = verify_unit((modname, i, inst, {"timeout_ms": tmo, "cvc5": True, "known": []}))
-        bad = [x for x in r["results"] if x["status"] not in ("proved", "covered")]
-        print(f"== {s.short} {inst}: {len(r['results'])} obligations, {len(bad)} not ok, {time.time() - t0:.1f}s paths={r.get('paths')}"
-              + (f" UNSUPPORTED: {r['unsupported']}" if r.get("unsupported") else "") + (f"\nERROR {r['error']}" if r.get("error") else ""))
-        for x in r["results"]:
-            if verbose or x["status"] not in ("proved", "covered"):
-                print(f"   {x['status']:9s} {x['time']:.2f}s {x['oid']}  [{x['path']}]" + (f"\n        model={x['model']}" if x.get("model") and x["status"] != "proved" else ""))
+
+def work(job):
+    i, inst = job
+    t0 = time.time()
+    s = mod.SPECS[i]
+    r = verify_unit((modname, i, inst, {"timeout_ms": tmo, "cvc5": True, "known": []}))
+    bad = [x for x in r["results"] if x["status"] not in ("proved", "covered")]
+    out = [f"== {s.short} {inst}: {len(r['results'])} obligations, {len(bad)} not ok, {time.time() - t0:.1f}s paths={r.get('paths')}"
+           + (f" UNSUPPORTED: {r['unsupported']}" if r.get("unsupported") else "") + (f"\nERROR {r['error']}" if r.get("error") else "")]
+    for x in r["results"]:
+        if verbose or x["status"] not in ("proved", "covered"):
+            out.append(f"   {x['status']:9s} {x['time']:.2f}s {x['oid']}  [{x['path']}]" + (f"\n        model={x['model']}" if x.get("model") and x["status"] != "proved" else ""))
+    return "\n".join(out)
+
+
+if __name__ == "__main__":
+    import multiprocessing as mp
+
+    jobs = [(i, inst) for i, s in enumerate(mod.SPECS) if not s.trusted and flt in s.short for inst in s.instances]
+    with mp.get_context("fork").Pool(int(os.environ.get("VERIF_JOBS", "12"))) as pool:
+        for line in pool.imap(work, jobs):
+            print(line, flush=True)
